@@ -90,4 +90,9 @@ theorem C12.accepted_duration_reencodes (s : Nat) (h : s < 4294967296) :
 
 example : lookup rcToLib 9999 = none ∧ lookup rcToLib 88 = some 30 ∧ sizeGate 10 11 = false ∧ sizeGate 0 11 = true := by decide
 
+/-- … and every decoded elapsed time (any signed 64-bit wire value, negative ones included) encodes again to the same wire value:
+    the encoder applies no clamp the decoder does not apply -/
+theorem C12.accepted_elapsed_reencodes (w : Int) (h : fitsI64 w) : elapsedToWire (elapsedFromWire w) = w := by
+  simp only [fitsI64, elapsedFromWire, elapsedToWire, wrap64] at *; omega
+
 end Iscp.Conv
